@@ -38,6 +38,7 @@ type Cfg struct {
 	Report   map[string]bool // property ids whose violations are reported; nil = all
 	Skip     map[string]bool // violation fingerprints recorded as known findings (counted, not reported)
 	Heights  int             // 1 = single height (nodes stop after their commit)
+	Sloppy   bool            // consumer validators accept a missing block
 	C11      bool            // one-step extension: deliver every honest output at once to every peer in a matching state
 }
 
@@ -138,13 +139,13 @@ func NewWorld(c kit.Committee, desc bool, invalid map[int]map[string]bool) *Worl
 }
 
 // validatorFor builds the C03 oracle: strict ValidateBlockConsensus on a fresh real node of another member.
-func validatorFor(w *World, idx int) func(interfaces.Block, []byte) error {
+func validatorFor(w *World, idx int) func(interfaces.Block, []byte, []byte) error {
 	id := w.C[idx].ID
 	cfg := &interfaces.Config{InstanceId: kit.Instance, Communication: &kit.Comm{}, Membership: &kit.Membership{Me: id, Committee: w.C},
 		BlockUtils: &kit.BlockUtils{Me: id}, KeyManager: &kit.KeyManager{Me: id}, OverrideElectionTrigger: &kit.FakeTrigger{}, Storage: kit.NewStore(false)}
 	v := lh.NewVerifNode(cfg, func(context.Context, interfaces.Block, []byte) error { return nil }, nil)
 	var vmu sync.Mutex
-	return func(b interfaces.Block, p []byte) (err error) {
+	return func(b interfaces.Block, p []byte, prevProof []byte) (err error) {
 		vmu.Lock()
 		defer vmu.Unlock()
 		defer func() {
@@ -156,7 +157,7 @@ func validatorFor(w *World, idx int) func(interfaces.Block, []byte) error {
 		if b != nil && b.Height() > 1 {
 			prev = &kit.Block{H: b.Height() - 1, Tag: "prev"}
 		}
-		return v.W.ValidateBlockConsensus(context.Background(), b, p, prev, nil, false)
+		return v.W.ValidateBlockConsensus(context.Background(), b, p, prev, prevProof, false)
 	}
 }
 
@@ -166,6 +167,7 @@ func NewEngine(cfg Cfg) *Engine {
 	e.msgs = make([]*Msg, 1<<18)
 	e.lstates = make([]*LState, 1<<21)
 	e.W = NewWorld(cfg.C, cfg.Desc, cfg.Invalid)
+	e.W.SloppyValidator = cfg.Sloppy
 	byz := map[int]bool{}
 	for _, b := range cfg.Byz {
 		byz[b] = true
@@ -824,6 +826,7 @@ type TraceEvent struct {
 }
 
 type ReplayFile struct {
+	TwoHeight bool         `json:"two_height_enumeration,omitempty"`
 	C11Ext    bool         `json:"c11_extension_last_event,omitempty"`
 	Live      *LiveOpt     `json:"liveness_extension,omitempty"`
 	LiveLog   []string     `json:"liveness_log,omitempty"`
